@@ -5,6 +5,7 @@ mod conv;
 mod ops;
 mod sexp;
 mod sinks;
+mod universal;
 
 use std::io::{BufRead, Write};
 
